@@ -146,6 +146,9 @@ type Obs struct {
 	Note   string    `json:"note,omitempty"`
 	stg    []int
 	xf     []int
+	wait   bool
+	stale  []int
+	hasSt  bool
 }
 
 type Result struct {
@@ -158,7 +161,11 @@ type Result struct {
 	// (machine under load): for the model these tasks were still staging
 	Stg map[int][]int `json:"stg,omitempty"`
 	// index of an xfail request -> the tasks that shared the failed executor / agent (read off the roster)
-	Xf     map[int][]int `json:"xf,omitempty"`
+	Xf map[int][]int `json:"xf,omitempty"`
+	// index of a cleanup request that did not return while a kill request was held in the master
+	Waiting map[int]bool `json:"waiting,omitempty"`
+	// index of the release request -> the unlocked tasks the waiting cleanup had listed when it started
+	Stale  map[int][]int `json:"stale,omitempty"`
 	Err    string        `json:"err,omitempty"`
 	Hung   bool          `json:"hung,omitempty"`
 	HungOp string        `json:"hung_op,omitempty"` // kind of the request that did not return
@@ -246,6 +253,14 @@ func opTerm(o Op) string {
 		return fmt.Sprintf("(OFail %s)", tl(o.Ids))
 	case "refuse":
 		return fmt.Sprintf("(ORefuse %s)", tl(o.Ids))
+	case "killhold":
+		return fmt.Sprintf("(OKill %s)", tl(o.Ids))
+	case "relock":
+		return fmt.Sprintf("(ORelock %s)", tidTerm(o.T))
+	case "nop":
+		return "ONop"
+	case "stale":
+		return fmt.Sprintf("(OCleanupStale %s)", tl(o.Ids))
 	case "recon":
 		return "ORecon"
 	}
@@ -279,6 +294,16 @@ func caseTerm(h History, r Result) string {
 		}
 		if o.K == "xfail" {
 			o.Ids = r.Xf[i]
+		}
+		if o.K == "cleanup" && r.Waiting[i] {
+			o.K = "nop" // it did not return: its effect comes when the held kill request is released
+		}
+		if o.K == "release" {
+			if ids, ok := r.Stale[i]; ok {
+				o.K, o.Ids = "stale", ids
+			} else {
+				o.K = "nop"
+			}
 		}
 		if st, ok := r.Stg[i]; ok && o.Spec != nil {
 			sp := *o.Spec
@@ -472,6 +497,12 @@ type child struct {
 	markers   int
 	attempts  map[int]int // role key -> launches seen so far
 	killed    map[string]bool
+	holdTid   string        // KILL call for this task is held in the master ...
+	holdGate  chan struct{} // ... until this is closed
+	holdHit   chan struct{}
+	holdDone  chan error // result of the held kill request
+	pendDone  chan error // result of a cleanup that is waiting behind it
+	pendIds   []int
 	curCreate int          // environment index of the creation that is deploying
 	refuse    map[int]bool // task key -> the master refuses KILL calls for it
 	exfail    map[int]bool // task key -> its executor / agent failed
@@ -1192,9 +1223,119 @@ func (c *child) runOp(o Op) Obs {
 			_, pend = ep.VerifC06PendingCalls()
 		}
 		return c.observe(rcOf(err), pend)
+	case "killhold":
+		// a kill request for one unowned task whose KILL call the master holds: KillTasks keeps its mutex
+		tid := ""
+		c.mu.Lock()
+		for _, l := range c.byTid {
+			if len(o.Ids) == 1 && l.key == o.Ids[0] {
+				tid = l.tid
+			}
+		}
+		c.holdTid, c.holdGate, c.holdHit = tid, make(chan struct{}), make(chan struct{}, 1)
+		c.holdDone = make(chan error, 1)
+		hit, done := c.holdHit, c.holdDone
+		c.mu.Unlock()
+		go func() {
+			_, err := c.s.Rpc.CleanupTasks(c.ctx, &pb.CleanupTasksRequest{TaskIds: []string{tid}})
+			done <- err
+		}()
+		select {
+		case <-hit:
+		case err := <-done: // nothing was held (the task was not there / not killable)
+			c.mu.Lock()
+			c.holdTid, c.holdGate, c.holdDone = "", nil, nil
+			c.mu.Unlock()
+			return c.observe(rcOf(err), 0)
+		case <-time.After(3 * time.Second):
+		}
+		return c.observe(0, 0)
+	case "release":
+		c.mu.Lock()
+		gate, done, pend, ids := c.holdGate, c.holdDone, c.pendDone, c.pendIds
+		c.holdTid, c.holdGate, c.holdDone, c.pendDone, c.pendIds = "", nil, nil, nil, nil
+		c.mu.Unlock()
+		if gate != nil {
+			close(gate)
+		}
+		if done != nil {
+			select {
+			case <-done:
+			case <-time.After(5 * time.Second):
+			}
+		}
+		rc := 0
+		if pend != nil {
+			select {
+			case err := <-pend:
+				rc = rcOf(err)
+			case <-time.After(5 * time.Second):
+			}
+		}
+		ob := c.observe(rc, 0)
+		if pend != nil {
+			ob.stale, ob.hasSt = ids, true
+		}
+		return ob
+	case "relock":
+		tid := ""
+		c.mu.Lock()
+		for _, l := range c.byTid {
+			if l.key == o.T {
+				tid = l.tid
+			}
+		}
+		c.mu.Unlock()
+		for _, t := range c.s.Taskman.VerifRoster() {
+			if t.TaskId == tid && (t.AgentId == "" || t.ExecutorId == "") {
+				c.s.SetTaskRunning(tid)
+				simcore.WaitFor(3*time.Second, func() bool {
+					for _, t2 := range c.s.Taskman.VerifRoster() {
+						if t2.TaskId == tid {
+							return t2.AgentId != "" && t2.ExecutorId != "" && t2.Status == "ACTIVE"
+						}
+					}
+					return true
+				})
+				c.mu.Lock()
+				delete(c.exfail, o.T)
+				c.mu.Unlock()
+			}
+		}
+		return c.observe(0, 0)
 	case "cleanup":
-		_, err := c.s.Rpc.CleanupTasks(c.ctx, &pb.CleanupTasksRequest{})
-		return c.observe(rcOf(err), 0)
+		c.mu.Lock()
+		held := c.holdGate != nil
+		c.mu.Unlock()
+		if !held {
+			_, err := c.s.Rpc.CleanupTasks(c.ctx, &pb.CleanupTasksRequest{})
+			return c.observe(rcOf(err), 0)
+		}
+		// a kill request is held in the master: the cleanup either does not care (it lists and kills at once)
+		// or waits behind it - then its effect is observed when the kill request is released
+		var listed []int
+		for _, t := range c.s.Taskman.VerifRoster() {
+			if !t.Locked {
+				listed = append(listed, c.keyOfTid(t.TaskId))
+			}
+		}
+		sort.Ints(listed)
+		pd := make(chan error, 1)
+		go func() {
+			_, err := c.s.Rpc.CleanupTasks(c.ctx, &pb.CleanupTasksRequest{})
+			pd <- err
+		}()
+		select {
+		case err := <-pd:
+			return c.observe(rcOf(err), 0)
+		case <-time.After(2 * time.Second):
+		}
+		c.mu.Lock()
+		c.pendDone, c.pendIds = pd, listed
+		c.mu.Unlock()
+		ob := c.observe(0, 0)
+		ob.wait = true
+		return ob
 	case "kill":
 		var ids []string
 		c.mu.Lock()
@@ -1389,6 +1530,20 @@ func runChild(workDir string) {
 		}
 		return simcore.CmdAck
 	}
+	s.Beh.Kill = func(taskId string) bool {
+		c.mu.Lock()
+		gate, hit := c.holdGate, c.holdHit
+		held := gate != nil && taskId == c.holdTid
+		c.mu.Unlock()
+		if held {
+			select {
+			case hit <- struct{}{}:
+			default:
+			}
+			<-gate
+		}
+		return true
+	}
 	s.Beh.KillError = func(taskId string) error {
 		// refused only while the task is ACTIVE for the core (the model's oracle applies to ACTIVE tasks)
 		k := c.keyOfTid(taskId)
@@ -1448,6 +1603,18 @@ func runChild(workDir string) {
 					res.Fail = map[int]int{}
 				}
 				res.Fail[i] = 5
+			}
+			if ob.wait {
+				if res.Waiting == nil {
+					res.Waiting = map[int]bool{}
+				}
+				res.Waiting[i] = true
+			}
+			if ob.hasSt {
+				if res.Stale == nil {
+					res.Stale = map[int][]int{}
+				}
+				res.Stale[i] = ob.stale
 			}
 			if o.K == "xfail" {
 				if res.Xf == nil {
